@@ -105,6 +105,7 @@ def run_c20(ctx):
     import l2
     res = l1_both(ctx, release_scale_quick="1.0", miri_shards=8)
     l2.c20_pty(ctx, res)
+    l2.c20_shared_history(ctx, res)
     return res
 
 
@@ -146,6 +147,7 @@ def run_c19(ctx):
     # the option given to `watch` holds for every re-check, as it does for a fresh check
     l2.watch_history(ctx, res, cp, "C19", 151, stack=True)
     res.require(["watch_through_a_symlink_pointed_elsewhere"], "L2")
+    l2.c19_cli(ctx, res)
     return res
 
 
